@@ -45,8 +45,8 @@ size_t g_c;                    /* arbitrary character position in a name        
 size_t g_strlen_ret;           /* what the last strlen returned                                     */
 void *g_k_copy;                /* the object that received the copy of the tracked entry's name     */
 int g_k_copied, g_k_char_ok, g_k_term_ok;   /* ... copied once; character g_c and the terminator arrived */
-unsigned g_k_freed, g_list_freed, g_other_freed; void *g_list_obj; unsigned g_mallocs, g_reallocs;
-void *g_last_name; unsigned g_last_freed; int g_realloc_failed;   /* the most recent name allocation; the list could not grow */
+unsigned g_list_freed; void *g_list_obj; unsigned long g_mallocs, g_reallocs;
+void *g_last_name; int g_realloc_failed;   /* the most recent name allocation; the list could not grow */
 #define NAME_LAST 255
 #define IS_DOT(s) ((s)[0] == '.' && ((s)[1] == 0 || ((s)[1] == '.' && (s)[2] == 0)))
 
@@ -65,10 +65,10 @@ struct dirent *readdir(DIR *d) {
   if (g_dpos >= g_nent) return NULL;                                  /* end of directory: errno untouched */
   if (nondet_int()) { g_errno = nondet_int(); __CPROVER_assume(g_errno != 0); g_readdir_err++; return NULL; }
   __CPROVER_assume(g_dpos < (1ul << 40));                             /* fewer than 2^40 entries */
-  __CPROVER_havoc_object(&g_dirent);                                  /* the buffer is reused */
+  /*H*/
   if (g_dpos == g_k) {
     kind = g_k_kind; g_k_seen++; g_k_slot = g_nreg;
-    __CPROVER_array_copy(g_dirent.d_name, g_kname);
+    /*AC*/
   } else {
     kind = nondet_int();
     if (kind == 1) { g_dirent.d_name[0] = '.'; g_dirent.d_name[1] = 0; }
@@ -117,13 +117,22 @@ static void *verif_realloc(void *p, size_t n) {
   if (nondet_int() || n > __CPROVER_OBJECT_SIZE(p)) { g_realloc_failed = 1; return NULL; }
   return p;                                                                 /* in-place growth, see the header */
 }
-/* Only the list object is really freed here.  The names are counted, not freed: with one ghost index the pointers in
-   the other slots are unknown values, and 'every slot holds a distinct live heap pointer' needs a quantifier
-   (exactly-once freeing of the names, the leak check and double frees: envr.children.b, bounded). */
-static void verif_free(void *p) {
-  __CPROVER_assert(p != NULL, "free is never called with NULL by this code");
-  if (p == g_list_obj) { g_list_freed++; free(p); }
-  else { if (p == g_k_copy && g_k_copied) g_k_freed++; if (p == g_last_name) g_last_freed++; g_other_freed++; }
+/* free(expr): the model is told WHICH expression of ldb_get_children is freed (0: `list`, 1: a slot `list[j]`,
+   2: the pending `name`) - see the macro below.  Only the list object is really freed (later use of it is then a
+   memory-safety violation); names are counted: with one ghost index the pointers in the other slots are unknown
+   values and 'every slot holds a distinct live heap pointer' needs a quantifier (identity of the freed names, leak
+   check and double frees: envr.children.b, bounded). */
+unsigned long g_slot_frees, g_name_frees;
+static void verif_free(void *p, int what) {
+  if (what == 0) {
+    __CPROVER_assert(p != NULL && p == g_list_obj, "free(list): the list allocated by this call");
+    g_list_freed++; free(p);
+  } else if (what == 2) {
+    __CPROVER_assert(p != NULL && p == g_last_name, "free(name): the name that was allocated last and not yet stored");
+    g_name_frees++;
+  } else {
+    g_slot_frees++;
+  }
 }
 static void *verif_memcpy(void *dst, const void *src, size_t n) {
   __CPROVER_assert(n > 0 && __CPROVER_r_ok(src, n) && __CPROVER_w_ok(dst, n), "memcpy: source readable and destination writable for n bytes");
@@ -136,14 +145,14 @@ static void *verif_memcpy(void *dst, const void *src, size_t n) {
       /* this is the copy of the tracked entry's name */
       g_k_copy = dst; g_k_copied++;
       g_k_term_ok = (n == g_strlen_ret + 1 && vl == 0);
-      g_k_char_ok = (g_c >= n || ((unsigned char *)dst)[g_c] == (unsigned char)g_kname[g_c]);
+      g_k_char_ok = (g_c >= n || g_c > NAME_LAST || ((unsigned char *)dst)[g_c] == (unsigned char)g_kname[g_c]);
     }
   }
   return dst;
 }
 #define malloc(n) verif_malloc(n)
 #define realloc(p, n) verif_realloc(p, n)
-#define free(p) verif_free(p)
+#define free(p) verif_free((p), (#p)[4] == '[' ? 1 : ((#p)[0] == 'n' ? 2 : 0))
 #define memcpy(d, s, n) verif_memcpy(d, s, n)
 
 #include "util/env.c"
@@ -154,13 +163,24 @@ static void *verif_memcpy(void *dst, const void *src, size_t n) {
 #undef memcpy
 
 static char g_path[4];
+/* frame + summary contract of ldb_get_children (gives the loops a parent write set that allows allocation); the
+   detailed obligations are the CHECKs of the harness, evaluated on the state the real function leaves behind */
+#define GHOST_CH g_errno, g_opendir_calls, g_dir_name, g_dir_st, g_dpos, g_nreg, g_k_seen, g_k_slot, g_readdir_err, g_strlen_ret, g_k_copy, g_k_copied, \
+  g_k_term_ok, g_k_char_ok, g_mallocs, g_reallocs, g_dirent, g_closedir_calls, g_list_freed, g_slot_frees, g_name_frees, g_last_name, g_realloc_failed, g_list_obj
+int c_get_children(const char *path, char ***out)
+__CPROVER_requires(path != NULL && __CPROVER_w_ok(out, sizeof(*out)) && g_dir_st == 0 && g_mallocs == 0 && g_slot_frees == 0 && g_name_frees == 0 && g_list_freed == 0 && !g_realloc_failed)
+__CPROVER_requires(g_k_seen == 0 && g_k_copied == 0 && g_readdir_err == 0 && g_opendir_calls == 0 && g_closedir_calls == 0)
+__CPROVER_assigns(*out, GHOST_CH)
+__CPROVER_ensures(__CPROVER_return_value >= -1 && (__CPROVER_return_value == -1 ? *out == NULL : ((unsigned long)__CPROVER_return_value == g_nreg && (void *)*out == g_list_obj)))
+__CPROVER_ensures(g_dir_st != 1)
+;
 void h_children_u(void) {
   char **list = (char **)&g_dirobj;
   int rc;
   g_errno = nondet_int();
   g_dir_st = 0; g_k_seen = 0; g_opendir_calls = g_closedir_calls = g_readdir_err = 0; g_dpos = 0; g_nreg = 0;
-  g_mallocs = g_reallocs = 0; g_k_copied = 0; g_k_freed = g_list_freed = g_other_freed = 0; g_k_copy = NULL; g_list_obj = NULL;
-  g_k_char_ok = g_k_term_ok = 0; g_last_name = NULL; g_last_freed = 0; g_realloc_failed = 0;
+  g_mallocs = g_reallocs = 0; g_k_copied = 0; g_list_freed = 0; g_slot_frees = g_name_frees = 0; g_k_copy = NULL; g_list_obj = NULL;
+  g_k_char_ok = g_k_term_ok = 0; g_last_name = NULL; g_realloc_failed = 0;
   __CPROVER_assume(g_k_kind >= 0 && g_k_kind <= 2);
   if (g_k_kind == 1) { g_kname[0] = '.'; g_kname[1] = 0; }
   else if (g_k_kind == 2) { g_kname[0] = '.'; g_kname[1] = '.'; g_kname[2] = 0; }
@@ -173,12 +193,13 @@ void h_children_u(void) {
   if (rc < 0) {
     CHECK(rc == -1 && list == NULL, "get_children failed: -1 and no list");
     CHECK(g_list_freed == (g_mallocs > 0 ? 1u : 0u), "get_children failed: the list is freed exactly once (if it was allocated)");
-    CHECK(!g_realloc_failed || g_last_freed >= 1, "get_children failed because the list could not grow: the name that was waiting to be stored is freed, not leaked");
+    CHECK(g_slot_frees + g_name_frees == (g_mallocs > 0 ? g_mallocs - 1 : 0), "get_children failed: as many names are freed as were allocated");
+    CHECK(g_name_frees == (g_realloc_failed ? 1u : 0u), "get_children failed: the name that was waiting to be stored when the list could not grow is freed (once), not leaked");
   } else {
     CHECK(g_dir_st == 2 && g_dpos == g_nent && g_readdir_err == 0, "get_children OK: the directory was read to its end without error (a readdir error is never taken for the end)");
     CHECK((unsigned long)rc == g_nreg, "get_children OK: the count is the number of entries other than . and ..");
     CHECK(list != NULL && list == (char **)g_list_obj && __CPROVER_rw_ok(list, (size_t)rc * sizeof(char *)), "get_children OK: a list with room for that many names");
-    CHECK(g_list_freed == 0 && g_k_freed == 0 && g_other_freed == 0, "get_children OK: nothing that is handed out was freed");
+    CHECK(g_list_freed == 0 && g_slot_frees == 0 && g_name_frees == 0, "get_children OK: nothing that is handed out was freed");
     if (g_k < g_nent) {
       CHECK(g_k_seen == 1, "every entry is delivered once");
       if (g_k_kind == 0) {
